@@ -442,6 +442,45 @@ theorem coerced_unwraps (t : FType) (v x : V) (at' : FType)
   have h4 : single o v = some x := (single_iff o v x).mpr hx
   simp [h1, h2, h3, h4]
 
+/-- A value whose type conforms to the target is returned as it is (the first clause of the property's last
+sentence, as an equation). -/
+theorem coerced_of_conforms (t : FType) (v : V) (h : conf (o.typeOf v) t = true) : o.coerced t v = v := by
+  unfold coerced; rw [if_pos h]
+
+example : conf (TV.ops.typeOf (.list [.atom .number])) (.list .any) = true := by
+  simp [TV.ops, TV.typeOf, TV.allSame, list_covariant, conf_any]
+
+/-- Coercion is monotone in the target: a value that conforms to `t` is left as it is by the coercion to every
+type `t` conforms to (transitivity of conformance; the types are well-formed). -/
+theorem coerced_of_conforms_wider (t t' : FType) (v : V) (wv : WF (o.typeOf v)) (wt : WF t) (wt' : WF t')
+    (h : conf (o.typeOf v) t = true) (htt : conf t t' = true) : o.coerced t' v = v :=
+  coerced_of_conforms o t' v (conf_trans t _ _ wv wt wt' h htt)
+
+/-- … hence coercing to a wider type after coercing to a narrower one changes nothing: a parameter of type
+`list<number>` handed on to a parameter of type `list<Any>` keeps the value the first coercion produced (a
+singleton wrap included). -/
+theorem coerced_then_wider (l : Laws o) (t t' : FType) (v : V) (wr : WF (o.typeOf (o.coerced t v)))
+    (wt : WF t) (wt' : WF t') (htt : conf t t' = true) :
+    o.coerced t' (o.coerced t v) = o.coerced t v :=
+  coerced_of_conforms_wider o t t' _ wr wt wt' (coerced_conforms o l t v) htt
+
+example : WF (TV.ops.typeOf (TV.ops.coerced (.list .number) (.atom .number))) ∧ WF (.list .number) ∧ WF (.list .any) ∧
+    conf (.list .number) (.list .any) = true ∧
+    TV.ops.coerced (.list .any) (TV.ops.coerced (.list .number) (.atom .number)) = .list [.atom .number] := by
+  have h1 : conf .number (.list .number) = false := by simp [conf, equiv]
+  have h2 : conf .number .number = true := conf_refl _ (by simp [FType.WF])
+  have h3 : conf (.list .number) (.list .any) = true := by rw [list_covariant]; exact conf_any _
+  simp [coerced, TV.ops, TV.typeOf, TV.allSame, wrapOk, FType.WF, h1, h2, h3]
+
+/-- The model of `Value::type_of` (`TV.typeOf`) satisfies the three laws the coercion theorems assume, so they hold
+of the modelled code without hypotheses: the result conforms, coercing twice changes nothing, and the result is one of
+the four cases. -/
+theorem coerced_model (t : FType) (v : TV) :
+    conf (TV.typeOf (TV.ops.coerced t v)) t = true ∧
+    TV.ops.coerced t (TV.ops.coerced t v) = TV.ops.coerced t v ∧
+    (conf (TV.typeOf v) t = true → TV.ops.coerced t v = v) :=
+  ⟨coerced_conforms TV.ops TV.ops_laws t v, coerced_idem TV.ops TV.ops_laws t v, coerced_of_conforms TV.ops t v⟩
+
 end Dmn.ValOps
 
 /-! ## structural equality of types (`==`, used by `instance of` and `type_of`) -/
